@@ -47,24 +47,47 @@ theorem scan_lt (d : Array F) (h : 0 < d.size) : scan d < d.size := by
 theorem find_min_index_lt (s : Minimum F) (h : 0 < s.deque.size) :
     s.find_min_index < s.deque.size := scan_lt s.deque h
 
-/-- `next` never panics on a well-formed state, keeps it well-formed and keeps the period -/
-theorem next_total (s : Minimum F) (x : F) (h : WF s) :
-    ∃ r, s.next x = some r ∧ WF r.1 ∧ r.1.period = s.period := by
+/-- Normal form of one `next` on a well-formed state: which branch is taken as a function of the
+    comparison with the cached slot `v` (read AFTER the write at the cursor).  This is the ONLY
+    fact about `next` proved by executing the generated body; it does so with `rs_exec`, which
+    does not depend on how the wrap-around test is spelled.  Everything else is derived from it. -/
+theorem next_eq (s : Minimum F) (x v : F) (h : WF s)
+    (hv : (s.deque.setIfInBounds s.cur_index x)[s.min_index]? = some v) :
+    ∃ o, s.next x = some
+      ({ period := s.period,
+         min_index := if Scalar.lt x v then s.cur_index
+                      else if s.min_index = s.cur_index then scan (s.deque.setIfInBounds s.cur_index x)
+                      else s.min_index,
+         cur_index := if s.cur_index + 1 < s.period then s.cur_index + 1 else 0,
+         deque := s.deque.setIfInBounds s.cur_index x }, o) ∧
+      (s.deque.setIfInBounds s.cur_index x)[if Scalar.lt x v then s.cur_index
+                      else if s.min_index = s.cur_index then scan (s.deque.setIfInBounds s.cur_index x)
+                      else s.min_index]? = some o := by
   obtain ⟨hp, hs, hsz, hc, hmn⟩ := h
   have hm : isizeMax < usizeMax := by decide
   have hsz' : (s.deque.setIfInBounds s.cur_index x).size = s.period := by simpa using hsz
-  have hf : scan (s.deque.setIfInBounds s.cur_index x) < s.period := by
-    have := scan_lt (s.deque.setIfInBounds s.cur_index x) (by omega)
-    omega
-  unfold next
-  rw [setIndex_eq _ _ _ (by omega)]
+  have hf : scan (s.deque.setIfInBounds s.cur_index x) < (s.deque.setIfInBounds s.cur_index x).size :=
+    scan_lt _ (by omega)
   have hi : s.min_index < (s.deque.setIfInBounds s.cur_index x).size := by omega
-  simp only [Option.bind_eq_bind, Option.bind_some, index_eq _ _ hi]
-  cases c3 : Scalar.lt x (s.deque.setIfInBounds s.cur_index x)[s.min_index] <;>
-  by_cases c1 : s.cur_index + 1 < s.period <;>
-  by_cases c2 : s.min_index = s.cur_index <;>
-    simp (disch := omega) [index_eq, uadd_eq, c1, c2, find_min_index_eq]
-  all_goals exact ⟨hp, hs, hsz', by dsimp only; omega, by dsimp only; omega⟩
+  rw [Array.getElem?_eq_getElem hi] at hv
+  have hv := Option.some.inj hv
+  subst hv
+  unfold next
+  simp only [find_min_index_eq]
+  rs_exec
+  all_goals (first | omega | contradiction | exact ⟨_, rfl, Array.getElem?_eq_getElem _⟩)
+
+/-- `next` never panics on a well-formed state, keeps it well-formed and keeps the period -/
+theorem next_total (s : Minimum F) (x : F) (h : WF s) :
+    ∃ r, s.next x = some r ∧ WF r.1 ∧ r.1.period = s.period := by
+  have hi : s.min_index < (s.deque.setIfInBounds s.cur_index x).size := by
+    have := h.size; have := h.mn; simp only [Array.size_setIfInBounds]; omega
+  obtain ⟨o, e, _⟩ := next_eq s x _ h (Array.getElem?_eq_getElem hi)
+  refine ⟨_, e, ?_, rfl⟩
+  obtain ⟨hp, hs, hsz, hc, hmn⟩ := h
+  have hf := scan_lt (s.deque.setIfInBounds s.cur_index x) (by omega)
+  simp only [Array.size_setIfInBounds] at hf
+  constructor <;> simp only [Array.size_setIfInBounds] <;> (repeat' split) <;> omega
 
 /-- shape of the step: the input is written at the cursor, the cursor advances cyclically, the
     new `min_index` is the cursor, the rescan result, or unchanged, and the output is the buffer
@@ -76,20 +99,16 @@ theorem next_shape (s : Minimum F) (x : F) (h : WF s) :
       (r.1.min_index = s.cur_index ∨ r.1.min_index = s.min_index ∨
         (s.min_index = s.cur_index ∧ r.1.min_index = scan r.1.deque)) ∧
       r.1.deque[r.1.min_index]? = some r.2 := by
-  obtain ⟨hp, hs, hsz, hc, hmn⟩ := h
-  have hm : isizeMax < usizeMax := by decide
-  have hsz' : (s.deque.setIfInBounds s.cur_index x).size = s.period := by simpa using hsz
-  have hf : scan (s.deque.setIfInBounds s.cur_index x) < s.period := by
-    have := scan_lt (s.deque.setIfInBounds s.cur_index x) (by omega)
-    omega
-  unfold next
-  rw [setIndex_eq _ _ _ (by omega)]
-  have hi : s.min_index < (s.deque.setIfInBounds s.cur_index x).size := by omega
-  simp only [Option.bind_eq_bind, Option.bind_some, index_eq _ _ hi]
-  cases c3 : Scalar.lt x (s.deque.setIfInBounds s.cur_index x)[s.min_index] <;>
-  by_cases c1 : s.cur_index + 1 < s.period <;>
-  by_cases c2 : s.min_index = s.cur_index <;>
-    simp (disch := omega) [index_eq, uadd_eq, c1, c2, find_min_index_eq]
+  have hi : s.min_index < (s.deque.setIfInBounds s.cur_index x).size := by
+    have := h.size; have := h.mn; simp only [Array.size_setIfInBounds]; omega
+  obtain ⟨o, e, ho⟩ := next_eq s x _ h (Array.getElem?_eq_getElem hi)
+  refine ⟨_, e, rfl, rfl, ?_, ho⟩
+  dsimp only
+  split
+  · exact Or.inl rfl
+  · split
+    · exact Or.inr (Or.inr ⟨‹_›, rfl⟩)
+    · exact Or.inr (Or.inl rfl)
 
 theorem nextBar_eq (s : Minimum F) (b : Bar F) : s.nextBar b = s.next b.low := by
   unfold nextBar
